@@ -84,7 +84,10 @@ theorem hexDec_ok : Lemmas.RenderLink.hexDec "20" = [32] ∧ Lemmas.RenderLink.h
     AND `Spec.Term`, fed the very same renderer tokens, is deterministic on them (`runExact`) and ends
     related (`Rel`: every cell equal up to its own visual equality, cursor, pen, hyperlink, visibility,
     shape) to the display that shows the application's screen and cursor and that the emulator simulates
-    (C01 + the C05/C06 builder's bridge `display_refines_term` + the C12 simulation). -/
+    (C01 + the C05/C06 builder's bridge `display_refines_term` + the C12 simulation) — hence the reference
+    terminal ACCEPTS the emulator's state in the sense of C06 (`gridAccepts` cell by cell, cursor row,
+    pending wrap, pen, hyperlink, cursor visibility and shape): after every frame the emulator shows what
+    the one reference terminal, driven by the renderer's own output, says it must show. -/
 theorem c12_end_to_end :
     -- (1a)
     (∀ (colorterm : Bool) (hostBg : Option (Nat × Nat × Nat)) (e : Emu) (p : Params), 8 ≤ p.qcap →
@@ -133,7 +136,11 @@ theorem c12_end_to_end :
           Lemmas.C06Bridge.runExact t ((C12Bridge.allToks caps cw s (a :: rest)).filterMap (Lemmas.C06Bridge.tokT dec cw)) = some t' ∧
           Lemmas.C06Bridge.Rel dec d t' ∧
           d.grid = Expected.expectedC cw caps fi.next ∧ C01.CursorAs d fi.cursor ∧
-          Lemmas.C12Sim.DSim dec d e' rows cols) := by
+          Lemmas.C12Sim.DSim dec d e' rows cols ∧
+          Spec.Term.gridAccepts t'.primary (e'.active.map Model.EmuAbs.absRow) = true ∧
+          (t'.row : Int) = e'.cur.row ∧ t'.pw = decide (e'.cur.col ≥ (cols : Int)) ∧
+          t'.pen = Model.EmuAbs.absStyle e'.cur.st ∧ t'.link = e'.cur.st.link ∧
+          t'.cursorVisible = e'.mode.dectcem ∧ (t'.cursorShape : Int) = e'.cur.shape) := by
   refine ⟨?_, ?_, ?_, ?_, ?_⟩
   · intro colorterm hostBg e p hq hk hcap o henv hct ls st hin hnt hrun hquiet
     obtain ⟨h1, _, h3, h4⟩ := C12Startup.emu_dialogue_completes_any hostBg e p hq hk hcap o henv ls st hin hnt hrun hquiet
